@@ -6,7 +6,7 @@ import Exetera.Gen.Kernels
 
     {"op":"gen_kernel","kernel":"apply_spans_first","args":[{"arr":[0,2,3]},{"arr":[7,8,9]},{"none":true}],"fuel":100}
 
-  Arguments: {"int":n} {"bool":b} {"arr":[ints]} {"barr":[bools]} {"arr2":[[ints],…]} {"none":true}.  A subscript that was negative is reported
+  Arguments: {"int":n} {"bool":b} {"arr":[ints]} {"barr":[bools]} {"arr2":[[ints],…]} {"str":"…"} {"none":true}.  A subscript that was negative is reported
   as the error tag `negative_index` (the translated kernels treat it as an error branch, Python wraps around); an
   IndexError the kernel raises itself (`raise IndexError(...)`) carries `"raised": true` — unlike an out-of-range
   subscript it is defined behaviour of the compiled code too.
@@ -30,6 +30,9 @@ def decodeVal (j : Json) : Except String Val :=
   match j.getObjVal? "arr2" with
   | .ok v => (fromJson? v : Except String (List (List Int))).map Val.arr2
   | .error _ =>
+  match j.getObjVal? "str" with
+  | .ok v => (fromJson? v : Except String String).map Val.str
+  | .error _ =>
   match j.getObjVal? "none" with
   | .ok _ => .ok Val.none
   | .error _ => .error "bad argument"
@@ -42,6 +45,7 @@ partial def encodeVal : Val → Json
   | .barr a => Json.arr (a.map Json.bool).toArray
   | .arr2 a => Json.arr (a.map Driver.ints).toArray
   | .tup vs => Json.arr (vs.map encodeVal).toArray
+  | .str s => Json.str s
 
 def errOut : Err → Json
   | .oob site =>
